@@ -636,6 +636,17 @@ func (fc *FnCtx) frameCheck(st *State, lv *LV, pos token.Pos) {
 	if lv.Path != "" {
 		what += "." + lv.Path
 	}
+	if lv.Path != "" && !lv.Elem && !strings.ContainsAny(lv.Col, "[]*:") {
+		field := lv.Path
+		if k := strings.IndexAny(field, ".["); k >= 0 {
+			field = field[:k]
+		}
+		if !fc.e.specFieldNames()[field] {
+			// a field no specification mentions: no obligation can depend on it
+			fc.vc.note("write to " + lv.Col + "." + field + " in " + fc.name + ": the field is mentioned by no contract, so it is outside every frame")
+			return
+		}
+	}
 	fc.vc.oblige(st, "frame", "", "write "+what, fc.e.pos(pos), goal)
 }
 
